@@ -44,7 +44,7 @@ CLAIMED = {
    "Context.tla transcribes ContextTracker (per-manager depth counter and depth->saved dict, enter/exit/decorator, turn_memory_guarding_*). TLC checks ScopedRestore / EnterSets / DepthConsistent / DefaultOutside exhaustively to nesting depth 5 with turn_memory_guarding_* also inside scopes (~630k states); every behaviour of bounded length is replayed with real with-blocks, decorators and raising bodies, comparing both switches after every event; programs executed inside random nestings are validated against Ref.tla (untracked ops record nothing, keep gradients, write in place; backward is a no-op).",
    "explicit TLA+ mechanism model checked exhaustively with TLC; every enumerated behaviour replayed on the implementation; trace validation of programs run inside scopes"),
  "C02": ("model_checking", "5 C02",
-   "OpTable.tla enumerates, for every operation the reference defines (arithmetic, power, abs/relu, reductions incl. prod with zeros, var/ddof, matmul, get/set-item with basic / advanced / boolean / repeated indices and broadcast values, ufunc where=+out=, reshaping / transposing / joining / tiling / where), the lattice of operand shapes (0-d, empty, broadcasting), operand kinds (tensor, constant, transposed view, scalar, array) and options, and computes value, shape and the exact VJP for a filler seed from the forward definition over dual numbers; every cell is replayed on MyGrad and compared exactly. For the transcendental kernels Kernels.tla states each derivative as an expression tree, TLC checks the table is total and the domain grids cover both signs and the documented conventions are rows; the harness evaluates the trees in extended precision on the grids (1e-9) and the convention rows exactly. Operations without a row are listed in the evidence.",
+   "OpTable.tla enumerates, for every operation the reference defines (arithmetic, power, abs/relu, reductions incl. prod with zeros, var/ddof, matmul, get/set-item with basic / advanced / boolean / repeated indices and broadcast values, ufunc where=+out=, reshaping / transposing / joining / tiling / where), the lattice of operand shapes (0-d, empty, broadcasting), operand kinds (tensor, constant, transposed view, scalar, array) and options, and computes value, shape and the exact VJP for a filler seed from the forward definition over dual numbers; every cell is replayed on MyGrad and compared exactly. For the transcendental kernels Kernels.tla states each derivative as an expression tree, TLC checks the table is total and the domain grids cover both signs and the documented conventions are rows; the harness evaluates the trees in extended precision on the grids (1e-9) and the convention rows exactly. Interp.tla gives exp/log/sqrt-built operations at interpretation points where value or VJP is rational; the focal losses are expression rows of Kernels.tla; Recurrent.tla unrolls the GRU's documented equations into a program whose VJP the harness reads off forward-mode duals. Operations without a row are listed in the evidence (none at present).",
    "explicit TLA+ reference + decision tables checked with TLC; every cell replayed exactly; transcendental derivative table evaluated numerically on domain grids (declared assumption)"),
  "C03": ("model_checking", "5 C03",
    "tables/Promote.tla states NumPy's NEP-50 promotion (arrays strong, Python scalars weak) and the per-operation dtype rules, checks the table's own sanity (commutativity, never narrower, weak scalars keep precision) and enumerates the configuration space: 7 binary ufuncs x 6 array dtypes x 9 operand kinds x side x shape x layout, keyword options (where / out / dtype and their combinations), 16 unary ufuncs, 9 reductions x axis/keepdims options, 15 data-movement functions x 4 memory layouts, matmul / einsum / where. Every cell is evaluated by MyGrad with tracking on, by MyGrad under no_autodiff and by NumPy on the raw arrays; values must be bit-identical, shapes and dtypes equal, and the dtype equal to the table's.",
@@ -53,7 +53,7 @@ CLAIMED = {
    "tables/Dispatch.tla lists, per operation, the spellings that must be one operation (MyGrad function, NumPy function/ufunc on tensors, method, operator, reflected and augmented operator, out= and where=+out= forms), the operand-kind combinations and argument cases, and the kind of result (Tensor / plain ndarray for boolean and non-differentiable functions / ValueError for the rounding-modulo family on non-constant tensors, wherever the tensor stands). All spellings of each of the ~1300 cells are executed on freshly built identical operands and compared in value, dtype, shape, constant flag and gradients; registered names without a table row are listed in the evidence.",
    "explicit TLA+ decision table checked with TLC (exhaustive enumeration); all spellings of every cell executed and compared"),
  "C16": ("model_checking", "5 C16",
-   "tables/Layers.tla: transcription of sliding_window_view's guards and stride arithmetic and of the acceptance logic of conv_nd / max_pool next to the documented validity predicate and the documented formulas. TLC enumerates every configuration within the bounds (1-D and 2-D windows, leading dims, stride, padding, dilation), proves InBounds / Formula / AcceptsExactly / ConvAcceptsExactly on the table and emits the expected outcome; the harness executes every configuration twice (contiguous and strided input) and compares accept/reject, shape, read-only flag, memory bounds and every output value exactly. Softmax / losses / batchnorm / GRU numerics are outside the table (DESIGN section 9).",
+   "tables/Layers.tla: transcription of sliding_window_view's guards and stride arithmetic and of the acceptance logic of conv_nd / max_pool next to the documented validity predicate and the documented formulas. TLC enumerates every configuration within the bounds (1-D and 2-D windows, leading dims, stride, padding, dilation), proves InBounds / Formula / AcceptsExactly / ConvAcceptsExactly on the table and emits the expected outcome; the harness executes every configuration twice (contiguous and strided input) and compares accept/reject, shape, read-only flag, memory bounds and every output value exactly. Long axes (1e5-1e6 elements) are rows for acceptance and shape. The other layers of the statement are decided by the tables C02 uses: Interp.tla (softmax, logsoftmax, softmax-crossentropy, batchnorm at exact interpretation points), the focal-loss rows of Kernels.tla, negative-log-likelihood / hinge / margin-ranking cells of Layers.tla, and Recurrent.tla, in which TLC unrolls the GRU's documented recurrence into a straight-line program (invariants WellFormed / Causal / Complete) that the harness evaluates in extended precision and compares with gru() element by element.",
    "explicit TLA+ decision table checked with TLC (exhaustive enumeration); every configuration executed on the implementation"),
  "C17": ("model_checking", "5 C17",
    "tables/Construct.tla transcribes tensor() / Tensor.__init__ / astensor / asarray / copy / astype as a decision table over input kind x dtype x constant x copy x ndmin x entry point; TLC checks CopyByDefault / ReuseWhenPossible / AstensorIdentity / Detached / RejectNonReal on every cell and emits the predicted outcome (raises, identity, memory sharing, dtype, constant, creator/grad/base); the harness executes every cell, including the later-mutation probe. Creation routines are compared three-way with NumPy for every routine x dtype x shape x variant cell.",
